@@ -27,6 +27,8 @@ use crate::hv::shard::{Tier, Unit};
 #[derive(Clone, Debug)]
 pub enum What {
     Code(Vec<u8>),
+    /// code executed at a fixed address outside the straight-line program (refused steps at the end of a region)
+    CodeAt(Vec<u8>, u32),
     Req(u8),
     Bound,
     Host(u32, u8),
@@ -342,6 +344,15 @@ pub fn alphabet(isa: &Isa, l: &Layout) -> Vec<Sym> {
         extra(&mut out, "MOV.B Rs,@aa:24", Fields { rs: 8, data: ra, ..base }, &format!("(R0L -> {})", rname), rname == "DRCRA" || rname == "ASTCR");
         extra(&mut out, "MOV.B Rs,@aa:24", Fields { rs: 0xe, data: ra, ..base }, &format!("(R6L -> {})", rname), rname == "WCRL");
     }
+    // ---- steps that are refused (the sequence goes on behind them: a refused step must leave nothing behind that
+    //      changes what the following instructions do)
+    out.push(Sym { name: "prefix word 7800 in the last word of DRAM (refused)".into(), what: What::CodeAt(vec![0x78, 0x00], 0x5ffffe), owners: vec![], core: true });
+    out.push(Sym { name: "prefix word 0100 in the last word of the vector area (refused)".into(), what: What::CodeAt(vec![0x01, 0x00], 0x0000fe), owners: vec![], core: false });
+    out.push(Sym { name: "prefix word 0140 in the last word of DRAM (refused)".into(), what: What::CodeAt(vec![0x01, 0x40], 0x5ffffe), owners: vec![], core: false });
+    out.push(Sym { name: "prefix word 7d00 in the last word of DRAM (refused)".into(), what: What::CodeAt(vec![0x7d, 0x00], 0x5ffffe), owners: vec![], core: false });
+    out.push(Sym { name: "MOV.L #xx:32,ER0 in the last four bytes of DRAM (refused)".into(), what: What::CodeAt(vec![0x7a, 0x00, 0x12, 0x34], 0x5ffffc), owners: vec![], core: false });
+    out.push(Sym { name: "MOV.B @H'200000,R0L (unmapped operand, refused)".into(), what: What::Code(vec![0x6a, 0x28, 0x00, 0x20, 0x00, 0x00]), owners: vec![], core: false });
+    out.push(Sym { name: "MOV.W R0,@H'200000 (unmapped operand, refused)".into(), what: What::Code(vec![0x6b, 0xa0, 0x00, 0x20, 0x00, 0x00]), owners: vec![], core: false });
     // ---- environment events
     out.push(Sym { name: "request 36".into(), what: What::Req(36), owners: vec![], core: true });
     out.push(Sym { name: "request 37".into(), what: What::Req(37), owners: vec![], core: false });
@@ -378,6 +389,7 @@ pub fn run_symbols(ctx: &mut Ctx, l: &Layout, init: &Case, seq: &[&Sym]) {
                 };
                 Act::exec(c, at)
             }
+            What::CodeAt(c, a) => Act::exec(c, Some(*a)),
             What::Req(v) => Act::Req(*v),
             What::Bound => Act::Bound,
             What::Host(a, v) => Act::Host(*a, *v),
@@ -400,6 +412,7 @@ pub fn run_symbols(ctx: &mut Ctx, l: &Layout, init: &Case, seq: &[&Sym]) {
     let init = &init2;
     // a first action that is not code still needs a defined PC: init.pc = p0
     let mut k = 0usize;
+    ctx.continue_after_err = true;
     ctx.run_seq(init, first, n, &mut |o: &StepObs| {
         k += 1;
         if k < n {
@@ -408,6 +421,7 @@ pub fn run_symbols(ctx: &mut Ctx, l: &Layout, init: &Case, seq: &[&Sym]) {
             Next::Stop
         }
     });
+    ctx.continue_after_err = false;
 }
 
 pub fn units(prop: &'static str, tier: Tier) -> Vec<Unit> {
